@@ -18,11 +18,12 @@ Definition fbkind_eqb (a b : fbkind) : bool :=
   | FbSuccessSer, FbSuccessSer | FbErrorSer, FbErrorSer | FbExceeded, FbExceeded => true
   | _, _ => false
   end.
-Definition payload_eqb (a b : payload) : bool :=
+Fixpoint payload_eqb (a b : payload) : bool :=
   match a, b with
   | PVal i u g, PVal i' u' g' => (i =? i') && eqb u u' && eqb g g'
   | PNone, PNone | PEmpty, PEmpty | PText, PText => true
   | PFallback k, PFallback k' => fbkind_eqb k k'
+  | PSelf o p, PSelf o' p' => (o =? o') && payload_eqb p p'
   | _, _ => false
   end.
 Definition uri_eqb (a b : uri) : bool :=
